@@ -211,9 +211,18 @@ def gen_schema(rng: random.Random) -> Dict[str, Any]:
     types: List[Dict[str, Any]] = []
     for s in BUILTIN + scalars:
         types.append({"name": s, "kind": "scalar"})
+    enum_vals: Dict[str, List[str]] = {}
     for e in enums:
-        types.append({"name": e, "kind": "enum", "values": rng.sample(ENUM_VALUES, rng.randint(2, 3))})
+        enum_vals[e] = rng.sample(ENUM_VALUES, rng.randint(2, 3))
+        types.append({"name": e, "kind": "enum", "values": enum_vals[e]})
     arg_leaf_types = BUILTIN + scalars + enums
+    p_default = rng.choice([0.0, 0.3, 0.6])
+
+    def default_literal(base: str) -> Optional[str]:
+        """SDL literal of a schema default (`limit: Int! = 10`) for builtin scalars and enums"""
+        if base in enum_vals:
+            return enum_vals[base][0]
+        return {"Int": "10", "Float": "1.5", "Boolean": "true", "String": '"dflt"', "ID": '"1"'}.get(base)
 
     def pick_arg_name(used: List[str]) -> str:
         pool = ARG_TRICKY if rng.random() < p_tricky else (ARG_CAMEL if rng.random() < p_camel else ARG_SIMPLE)
@@ -237,7 +246,12 @@ def gen_schema(rng: random.Random) -> Dict[str, Any]:
             nm = pick_arg_name(used)
             used.append(nm)
             base = rng.choice(arg_leaf_types + inputs)
-            out.append({"name": nm, "ty": wrap_arg(rng, T_named(base), p_list, 0.3)})
+            arg = {"name": nm, "ty": wrap_arg(rng, T_named(base), p_list, 0.3)}
+            # a NON-NULL argument with a schema default (`limit: Int! = 10`): still a required parameter of the generated
+            # classmethod, still declared `Int!` (the harness always passes it, so the default never takes effect)
+            if T_nonnull(arg["ty"]) and not T_has_list(arg["ty"]) and default_literal(base) is not None and rng.random() < p_default:
+                arg["default"] = default_literal(base)
+            out.append(arg)
         return out
 
     def leaf_field(used: List[str]) -> Dict[str, Any]:
@@ -340,7 +354,8 @@ def to_sdl(s: Dict[str, Any]) -> str:
             for f in t["fields"]:
                 a = ""
                 if f["args"]:
-                    a = "(" + ", ".join(f"{x['name']}: {T_str(x['ty'])}" for x in f["args"]) + ")"
+                    a = "(" + ", ".join(f"{x['name']}: {T_str(x['ty'])}" + (f" = {x['default']}" if x.get("default") else "")
+                                        for x in f["args"]) + ")"
                 fs.append(f"  {f['name']}{a}: {T_str(f['ty'])}")
             out.append(head + " {\n" + "\n".join(fs) + "\n}")
     roots = f"schema {{ query: {s['query']}" + (f" mutation: {s['mutation']}" if s.get("mutation") else "") + " }"
